@@ -25,16 +25,22 @@ impl Engine for CombEngine {
     }
     fn eval(&self, bytes: &[u8], trace: bool) -> Eval {
         let case = gen_case(bytes, &self.profile);
-        let mut out = run_case(&case, cfg!(feature = "cfg-std"), trace);
+        self.eval_case(&case, trace)
+    }
+}
+
+impl CombEngine {
+    pub fn eval_case(&self, case: &crate::spec::Case, trace: bool) -> Eval {
+        let mut out = run_case(case, cfg!(feature = "cfg-std"), trace);
         oracle::check_trace(&mut out.world);
-        let nontrivial = out.inconclusive.is_none() && (self.prop.nontrivial)(&case, &out);
-        let labels = labels(&case, &out);
+        let nontrivial = out.inconclusive.is_none() && (self.prop.nontrivial)(case, &out);
+        let labels = labels(case, &out);
         let violations = if out.inconclusive.is_some() { Vec::new() } else { std::mem::take(&mut out.world.viol) };
         let trace_lines = std::mem::take(&mut out.world.trace);
         let ev = Eval {
             violations,
             nontrivial,
-            hash: hash_of(&case),
+            hash: hash_of(case),
             labels,
             inconclusive: out.inconclusive,
             show: case.show(),
